@@ -43,6 +43,15 @@ Definition roundtrip_shallow_ok (c : cfg) (s2 : snap) (r : applied) : bool :=
   | None => false
   end.
 
+(* shallow mode without the acceptance bit: what the decoded mirror holds *)
+Definition values_shallow_ok (c : cfg) (s2 : snap) (r : applied) : bool :=
+  match r with
+  | Some (t', q', m', _) =>
+    list_bool_eqb (parities t') (parities (mirror c s2))
+    && (q' =? s_q s2) && (m' =? s_m s2)
+  | None => false
+  end.
+
 Definition roundtrip_ok (c : cfg) (s2 : snap) (r : applied) : bool :=
   if shallow c then roundtrip_shallow_ok c s2 r else roundtrip_deep_ok c s2 r.
 
